@@ -14,6 +14,7 @@ func init() {
 		&Rule{ID: "WR-VERBATIM", Doc: "derived envelopes reuse the parent's signed blocks verbatim (same Authority pointer, full copy of Blocks, at most one new block appended at the end); Serialize marshals the stored envelope", Run: ruleWRVerbatim, Min: 5},
 		&Rule{ID: "SEAL-GUARD", Doc: "Append and Seal refuse (error) when the token has no next secret, before signing anything", Run: ruleSealGuard, Min: 4},
 		&Rule{ID: "SEAL-SAME", Doc: "the sealed token carries copies of the parent's authority, blocks and symbols and the same signed blocks", Run: ruleSealSame, Min: 5},
+		&Rule{ID: "RV-FRESH", Doc: "every operation that signs returns the token it has just signed (no memoised or shared token): each call draws its own key and produces its own signature", Run: ruleRVFresh, Min: 3},
 		&Rule{ID: "SEAL-NOPROOF", Doc: "no code reachable from the authorizer's methods reads the token's proof", Run: ruleSealNoProof, Min: 1},
 	)
 }
@@ -309,6 +310,15 @@ func ruleSealSame(p *Prog, r *Reporter) {
 	}
 	f := litFields(lit)
 	pos := p.instrPos(lit)
+	// a whole-struct copy of the parent inherits every field that is not explicitly overridden (caches, memoised encodings)
+	if sts := storesDirect(lit); len(sts) > 0 {
+		st := deref(lit.Type()).Underlying().(*types.Struct)
+		for i := 0; i < st.NumFields(); i++ {
+			if _, set := f[st.Field(i).Name()]; !set {
+				r.Bad(pos, name, "inherited field "+st.Field(i).Name(), "the sealed token starts as a copy of the whole parent struct and field "+st.Field(i).Name()+" is not overridden: state of the unsealed token (for instance a cached serialisation that still holds the next secret) leaks into the sealed one")
+			}
+		}
+	}
 	// authority: new Block holding a copy of *T.authority
 	okAuth := false
 	if a, ok := f["authority"].(*ssa.Alloc); ok {
@@ -400,5 +410,42 @@ func ruleSealNoProof(p *Prog, r *Reporter) {
 	}
 	if n == 0 {
 		r.OK("-", "Reach(authorizer methods)", "no proof access", "none of the functions reachable from the authorizer's methods reads pb.Biscuit.Proof")
+	}
+}
+
+func ruleRVFresh(p *Prog, r *Reporter) {
+	globalP = p
+	o := p.own()
+	// functions that (transitively) sign
+	signs := map[*ssa.Function]bool{}
+	for _, fn := range p.funcsIn("biscuit") {
+		for f := range p.CG().Reach(fn) {
+			if calleeName(f) == "crypto/ed25519.Sign" {
+				signs[fn] = true
+			}
+		}
+	}
+	for _, fn := range p.funcsIn("biscuit") {
+		if !signs[fn] || fn.Parent() != nil {
+			continue
+		}
+		res := fn.Signature.Results()
+		if res.Len() == 0 || !isRepoNamed(res.At(0).Type(), "biscuit", "Biscuit") {
+			continue
+		}
+		name := p.FuncName(fn)
+		for _, ret := range returnsOf(fn) {
+			v := retVal(ret, 0)
+			if isNilConst(v) {
+				continue
+			}
+			og := o.origin(v)
+			fresh := og.kind == oNone
+			what := "freshly built token"
+			if !fresh {
+				what = "the returned token is " + shortD(v) + ", which belongs to " + rootName(p, og.root) + ": a stored token is handed out again instead of signing a new one, so separate issuances share signatures / revocation identifiers"
+			}
+			r.Check(fresh, p.instrPos(ret), name, "returned token", "each call returns the token it has just built and signed", what)
+		}
 	}
 }
